@@ -771,6 +771,18 @@ pub fn judge_light(w: &mut LWorld, v: &Ver, out: &mut Outcome) -> Judged {
             if n_acc > 0 { "accepted" } else { "refused" },
             v.kind
         ));
+        if !v.expect_valid {
+            // the statement quantifies over "invalid edits: removed/reordered/retyped items, missing defaults": such a
+            // version has to be refused; the reference rules of c15_model agree with the implementation on every
+            // version of the unchanged tree, so a disagreement is a change of the rules themselves
+            report(
+                out,
+                &mut found,
+                &format!("rules:invalid-version-accepted:{}", v.kind),
+                format!("{} ({}) is an edit the compatibility rules refuse (rows written before it would not satisfy the new version) and it was accepted", v.kind, v.pos),
+                replay_json(w.base, &w.hist, v, "light"),
+            );
+        }
     }
     let found_list: Vec<&String> = found.iter().collect();
     out.nontrivial(&(&v.kind, verdict, &found_list));
